@@ -1,3 +1,5 @@
+//go:build verif_c06
+
 package main
 
 // C06 — row/column insertion, removal and duplication relocate content exactly.
